@@ -69,7 +69,7 @@ PROP = dict(
     ],
     level="proof",
     level_text="THEOREMS ABOUT THE GO BINDINGS (as extracted by translator X7, regenerated on every run): "
-               "steps_eq_schema - proved once for every schema S and bindings value B accepted by the decidable "
+               "steps_eq_schema (stated in TongoProofs.C09, generic) - proved once for every schema S and bindings value B accepted by the decidable "
                "matcher agreeAll: for every type and every value the schema encodes, the MarshalTL step sequences "
                "write exactly Tl.encode and the UnmarshalTL step sequences read it back leaving any trailing bytes; "
                "instantiated at the current generated.go / lite_api.tl by 75 kernel-decided obligations (one per type "
@@ -82,10 +82,10 @@ PROP = dict(
                "schema semantics for every well-formed schema (C09), instantiated at the regenerated schema (wf_liteapi "
                "by kernel evaluation); request envelope; request decoder; answers for every function "
                "(liteapi_answer_decodes); ids = CRC-32 of the declaration text (ctor_id_is_crc32, regenerated kernel "
-               "obligation). HAND MODELS: ton.AccountID / ton.BlockIDExt / tl.Int256 codecs, both directions. Of the 33 "
+               "obligation). HAND MODELS: ton.AccountID / ton.BlockIDExt / tl.Int256 codecs, both directions. Of the 31 "
                "theorems of TongoProofs.C10, 13 are closed facts about the regenerated schema / bindings (kernel "
                "evaluated instances - they are the obligations that change with the repository), 2 "
-               "(handwritten_types_spec/_decode) are binder-free conjunctions of universally quantified clauses, 18 are "
+               "(handwritten_types_spec/_decode) are binder-free conjunctions of universally quantified clauses, 16 are "
                "universally quantified. TESTED TIE (kept in full): every generated type, request struct, client method (against a stub "
                "connection), answer path and the request decoder of the real Go code is executed on schema-directed "
                "random values and compared with the specification; this also covers what X7 does not extract (reflection "
